@@ -169,10 +169,11 @@ Definition exec (N : nat) (evs : list event) : state := fold_left (next N) evs i
 Definition out_code (o : outcome) : nat :=
   match o with Ok _ => 0 | Disabled => 1 | Finished => 2 | AssertFail => 3 | TypeError => 4 | BadEvent => 5 end.
 
-(* what the harness observed after a step: outcome code, network[0..N], hasLock[0..N], msg, q, pc[0],
-   pc[1..N], and the ghost lists recomputed from the observed reads/writes *)
+(* what the harness observed after a committed step: network[0..N], hasLock[0..N], msg, q, pc[0],
+   pc[1..N], and the ghost lists recomputed from the observed reads/writes. A step record is
+   (event, observed outcome code, Some obs) or, when the implementation's attempt did not commit and left
+   every observable unchanged (checked on the Go side), (event, code, None). *)
 Record obs := mkObs {
-  o_out : nat;
   o_net : list (list msg);
   o_hasLock : list bool;
   o_smsg : option msg;
@@ -212,18 +213,24 @@ Definition state_matches (N : nat) (s : state) (o : obs) : bool :=
   && list_eqb Nat.eqb (granted s) (o_granted o).
 
 (* index of the first step at which model and implementation disagree *)
-Fixpoint first_mismatch (N : nat) (s : state) (i : nat) (steps : list (event * obs)) : option nat :=
+Definition srec := (event * (nat * option obs))%type.
+
+Fixpoint first_mismatch (N : nat) (s : state) (i : nat) (steps : list srec) : option nat :=
   match steps with
   | [] => None
-  | (e, o) :: rest =>
+  | (e, (code, oo)) :: rest =>
       let out := step N s e in
       let s' := match out with Ok s' => s' | _ => s end in
-      if Nat.eqb (out_code out) (o_out o) && state_matches N s' o
+      if Nat.eqb (out_code out) code &&
+         match oo with
+         | Some o => state_matches N s' o
+         | None => match out with Ok _ => false | _ => true end
+         end
       then first_mismatch N s' (S i) rest
       else Some i
   end.
 
-Definition walk := (nat * list (event * obs))%type.
+Definition walk := (nat * list srec)%type.
 
 Definition walk_ok (w : walk) : bool :=
   match first_mismatch (fst w) init 0 (snd w) with None => true | Some _ => false end.
